@@ -301,6 +301,37 @@ func thrScenarios(tier string) []*mc.Scenario {
 			}
 			out = append(out, sh)
 		}
+		// references brought by a change event on a loaded subscription are
+		// followed under the throttle of its subscribe request as well
+		if n == 1 || n == 2 {
+			ev := &mc.Scenario{
+				Name:  fmt.Sprintf("thr/reference-event/N%d", n),
+				Props: []string{"C19"},
+				Cfg:   func(c *server.Config) { c.ReferenceThrottle = n },
+				Init: func(w *mc.World) {
+					w.Svc.Model("test.root", "a", ref("test.ka"))
+					for _, k := range []string{"ka", "kb", "kc", "kd", "ke"} {
+						w.Svc.Model("test."+k, "n", `0`)
+					}
+				},
+				Conns: []mc.ConnSpec{conn(latest, req("subscribe.test.root", 0))},
+				Threads: []mc.Thread{{Name: "svc", Ops: []mc.Op{
+					{Name: "root+4refs", Phase: 1, When: clientsDone, Do: func(w *mc.World) {
+						w.Svc.Change("test.root", "b", ref("test.kb"), "c", ref("test.kc"), "d", ref("test.kd"), "e", ref("test.ke"))
+					}},
+				}}},
+				Bound: map[string]int{"quick": 1, "thorough": 3},
+			}
+			ev.Monitors = func(w *mc.World) []mc.Monitor {
+				return allMons(func() mc.Monitor {
+					return &mc.ThrottleMon{Limit: n, StrictSlots: true,
+						Governed:  func(r *mc.Req) bool { return strings.HasPrefix(r.Subject, "get.") },
+						Throttles: func(w *mc.World) int { return 1 }, // one subscribe request
+					}
+				})(w)
+			}
+			out = append(out, ev)
+		}
 		// reference throttle: a tree with shared and cyclic children
 		sc := &mc.Scenario{
 			Name:  fmt.Sprintf("thr/reference/N%d", n),
@@ -676,6 +707,22 @@ func ordScenarios(tier string) []*mc.Scenario {
 			}},
 			{Name: "streamc", Ops: stream("test.c", 4, 1)},
 			{Name: "streamm", Ops: stream("test.m", 4, 1)},
+		},
+	})
+	// the delete event closes the stream: holders that have followed state
+	// events before (and a late subscriber whose snapshot already contains
+	// them) are told
+	out = append(out, &mc.Scenario{
+		Name: "ord/delete-after-events", Props: []string{"C03"}, Init: basicInit, Monitors: allMons(seqMon),
+		Conns: []mc.ConnSpec{
+			conn(latest, req("subscribe.test.x", 0), req("subscribe.test.c", 0)),
+			conn(latest, req("subscribe.test.x", 2)),
+		},
+		Threads: []mc.Thread{
+			{Name: "stream", Ops: stream("test.x", 2, 1)},
+			{Name: "svc", Ops: []mc.Op{
+				op("x.delete", 3, func(w *mc.World) { w.Svc.Delete("test.x") }),
+			}},
 		},
 	})
 	// reset re-fetch in the middle of a stream (state events may be superseded)
